@@ -1076,9 +1076,10 @@ def vec_len_ub(prog, body, local, use_bb):
     if creation is None:
         return None, 'definition chain too long'
     ct = creation[3]
-    if ct.cmethod not in ('with_capacity', 'new') or 'Vec' not in cnorm_(ct):
-        return None, 'vector created by %s' % (ct.cmethod or '?')
-    ub = 0
+    if ct.cmethod in ('with_capacity', 'new') and 'Vec' in cnorm_(ct):
+        ub = 0
+    else:
+        ub = None     # taken from somewhere (mem::take of a cached buffer, ..): unknown until a dominating clear()
     loops = body.loop_blocks()
     ops = []
     md = mutarg_defs(body)
@@ -1099,14 +1100,17 @@ def vec_len_ub(prog, body, local, use_bb):
         if m in ('clear',):
             if dominating:
                 ub = 0
+                why.append('clear()')
             continue
         if m == 'truncate':
             if dominating:
                 iv = refined_interval(prog, body, bb, t.args[1])
                 if iv is not None:
-                    ub = min(ub, iv[1])
+                    ub = iv[1] if ub is None else min(ub, iv[1])
                     why.append('truncate(<=%d)' % iv[1])
             continue
+        if ub is None and m != 'resize':
+            continue      # still unknown: growth of an unknown length stays unknown
         if m == 'resize':
             iv = refined_interval(prog, body, bb, t.args[1])
             if not dominating or iv is None or bb in loops:
@@ -1126,6 +1130,8 @@ def vec_len_ub(prog, body, local, use_bb):
             why.append('read_to_end(take(<=%d))' % iv[1])
             continue
         return None, 'length changed by %s' % (m or '?')
+    if ub is None:
+        return None, 'vector taken from %s and never cleared before being filled' % (ct.cmethod or '?')
     return ub, ', '.join(why)
 
 
@@ -1150,8 +1156,9 @@ def operand_leaves(body, op):
         return ('const', k.get('def') or k.get('txt', '?'))
     o = origins(body, [op.place[0]], through_calls=True)
     calls = sorted({body.blocks[c].term.cmethod or cnorm_(body.blocks[c].term) for c in o.calls} - PURE_METHODS)
-    fields = sorted({'.'.join(str(x) for x in f) for f in o.fields if f and not re.match(r'^_\d+$', str(f[0]))})
-    params = sorted(body.lname(p) for p in o.params)
+    # rename-proof: fields by (owner type, index), parameters by position; fields of tuples (checked-arithmetic results, multiple returns) are noise
+    fields = sorted({'/'.join('%s#%d' % (of, ix) for of, ix in f) for f in o.fields_ix if f and not any(of.startswith('(') or of == '' for of, ix in f)})
+    params = sorted('arg%d' % p for p in o.params)
     named = sorted({(c.get('def') or '') for c in o.consts if c.get('def')})
     return ('val', tuple(fields), tuple(params), tuple(calls), tuple(named))
 
